@@ -68,6 +68,16 @@ boost::thread_specific_ptr<unsigned int> Utility::m_RandSeed;
 double Utility::m_DebugTime = -1;
 #endif /* I2_DEBUG */
 
+#ifdef ICINGA2_VERIF
+double Utility::m_VerifTime = -1;
+
+/* Verification harness only: a negative value switches back to the system clock. */
+void Utility::VerifSetTime(double time)
+{
+	m_VerifTime = time;
+}
+#endif /* ICINGA2_VERIF */
+
 /**
  * Demangles a symbol name.
  *
@@ -312,6 +322,11 @@ void Utility::IncrementTime(double diff)
  */
 double Utility::GetTime()
 {
+#ifdef ICINGA2_VERIF
+	if (m_VerifTime >= 0) {
+		return m_VerifTime;
+	}
+#endif /* ICINGA2_VERIF */
 #ifdef I2_DEBUG
 	if (m_DebugTime >= 0) {
 		// (DEBUG / TESTING ONLY) this will return a *STATIC* system time, if the value has been set!
